@@ -40,13 +40,16 @@ def perm_for(k, i):
     return (k * 8 + i) * 37 % 256      # 37 is odd: a permutation of 0..255
 
 
-def gen_pair(rng, k, mode, perms=None):
+def gen_pair(rng, k, mode, perms=None, sec=None, mtu=None, fixed=None):
     """mode 'strict': the second database differs in every attribute the bearer may not read except those of
     the D11a class; mode 'd11a': it differs only in attributes of the D11a class (not READABLE, link ok).
     perms: explicit permission bytes of the characteristics (the permission matrix cases: 32 per database,
     lighter op list), default 8 from the enumeration."""
-    sec = [(False, False), (True, False), (True, True)][k % 3]
-    mtu = rng.choice([23, 23, 24, 30, 64, 185, 517])
+    # sec / mtu: security and ATT_MTU of the observing bearer; fixed: {index: value length} of characteristics
+    # with a plain value (no refusing function) of that length (several-bearer cases)
+    sec = sec or [(False, False), (True, False), (True, True)][k % 3]
+    mtu = mtu or rng.choice([23, 23, 24, 30, 64, 185, 517])
+    fixed = fixed or {}
     bearer = {'mtu': mtu, 'enc': sec[0], 'auth': sec[1], 'enh': (k // 3) % 2 == 1}
     chars1, chars2 = [], []
     long_len = mtu + rng.range(0, 5)          # long enough for Read Blob
@@ -57,6 +60,9 @@ def gen_pair(rng, k, mode, perms=None):
         v1 = bytes((0x10 + i + j) & 0xFF for j in range(n))
         rerr = rng.choice([0, 0, 0, 0, 0, 0x80, -1])       # read function raises ATT_Error / something else
         werr = rng.choice([0, 0, 0, 0, 0, 0x81, -1])
+        if i in fixed:
+            n, rerr, werr = fixed[i], 0, 0
+            v1 = bytes((0x10 + i + j) & 0xFF for j in range(n))
         flavor = rng.choice([0, 0, 1, 2, 3]) if not (rerr or werr) else rng.choice([1, 2, 3])
         may = ac.spec_may_read(perm, sec[0], sec[1], rerr)
         d11a = (not perm & ac.P_READABLE) and ac.link_ok_read(perm, sec[0], sec[1]) and rerr == 0
@@ -92,7 +98,85 @@ def gen_pair(rng, k, mode, perms=None):
         svc_uuid2 = 'BB00'          # the service UUID is the value of the service declaration
     db1 = {'services': [{'uuid': svc_uuid1, 'primary': True, 'chars': chars1}], 'decl_perm': decl}
     db2 = {'services': [{'uuid': svc_uuid2, 'primary': True, 'chars': chars2}], 'decl_perm': decl}
-    return {'mode': mode, 'bearer': bearer, 'db1': db1, 'db2': db2, 'light': perms is not None}
+    return {'mode': mode, 'bearer': bearer, 'db1': db1, 'db2': db2, 'light': perms is not None and not fixed}
+
+
+# ----------------------------------------------------------------------------- several bearers
+PROTECTED = [ac.P_READABLE | ac.P_RENC, ac.P_READABLE | ac.P_RAUTHN, ac.P_READABLE | ac.P_RENC | ac.P_RAUTHN,
+             3 | ac.P_RENC | ac.P_WENC, 3 | ac.P_RAUTHN | ac.P_WAUTHN, 3 | ac.P_RENC | ac.P_WAUTHN]
+
+
+def gen_multi(rng, k):
+    """One server, three bearers: 0 = authorised peer (encrypted + authenticated link), 1 = another connection
+    whose link is plain or only encrypted, 2 = an EATT bearer on the connection of 0 or of 1.  The two databases
+    differ only in values bearer 1 may not read.  After EACH operation of the authorised bearer on a target
+    attribute (every reading operation, a forced notification of the current value, Write Request, Write
+    Command) the unauthorised bearer(s) run every reading operation on it (Read Blob at offsets 0, 1, mtu-1,
+    len-1, len) and finally try to write it."""
+    usec = [(False, False), (True, False)][k % 2]
+    mtus = [rng.choice([23, 24, 27, 32, 48]) for _ in range(3)]
+    eatt_on = (k // 2) % 2                       # whose connection carries the EATT bearer
+    long_len = max(mtus) + rng.range(0, 6)
+    perms = [PROTECTED[k % 6], PROTECTED[(k + 3) % 6], ac.P_READABLE | ac.P_WRITEABLE | ac.P_RAUTHN | ac.P_RENC,
+             3, ac.P_READABLE | ac.P_RAUTHZ] + [perm_for(k, i) for i in range(3)]
+    fixed = {0: long_len, 1: rng.choice([0, 1, 7, 21, 22, 23]), 2: long_len + 3, 3: long_len}
+    case = gen_pair(rng, k, 'strict', perms=perms, sec=usec, mtu=mtus[1], fixed=fixed)
+    asec = (True, True)
+    esec = asec if eatt_on == 0 else usec
+    case['bearers'] = [{'mtu': mtus[0], 'enc': True, 'auth': True, 'enh': False},
+                       {'mtu': mtus[1], 'enc': usec[0], 'auth': usec[1], 'enh': False},
+                       {'mtu': mtus[2], 'enc': esec[0], 'auth': esec[1], 'enh': True, 'on': eatt_on}]
+    case['observers'] = [1] + ([2] if eatt_on == 1 else [])
+    case['multi'] = True
+    del case['bearer']
+    return case
+
+
+def multi_ops(case, mdb1, mdb2, rng):
+    le16 = ac.le16
+    bearers = case['bearers']
+    plain = next((a[0] for a in mdb1 if a[2] == 1 and a[5] == 0 and bytes(a[1]) == b'\x03\x28'), mdb1[0][0])
+    targets = [(a1, a2) for a1, a2 in zip(mdb1, mdb2) if bytes(a1[1]) not in (b'\x00\x28', b'\x03\x28')][:4]
+    ops = []
+
+    def reads(k, a1, a2, full):
+        h, t = a1[0], bytes(a1[1])
+        v1, v2 = bytes(a1[3]), bytes(a2[3])
+        mtu = bearers[k]['mtu']
+        out = [['rx', (b'\x0a' + le16(h)).hex()]]
+        offs = sorted({0, 1, mtu - 1, max(0, len(v1) - 1), len(v1), max(0, len(v2) - 1), len(v2)}) if full else [1, mtu - 1]
+        out += [['rx', (b'\x0c' + le16(h) + le16(o)).hex()] for o in offs]
+        out.append(['rx', (b'\x08' + le16(h) + le16(h) + t).hex()])
+        out.append(['rx', (b'\x0e' + le16(plain) + le16(h)).hex()])
+        out.append(['rx', (b'\x20' + le16(h)).hex()])
+        if len(t) == 2 and full:
+            out.append(['rx', (b'\x06' + le16(h) + le16(h) + t + v1).hex()])
+        return [[k, o] for o in out]
+
+    for a1, a2 in targets:
+        h, t = a1[0], bytes(a1[1])
+        v1 = bytes(a1[3])
+        new = bytes((0xC0 + h + j) & 0xFF for j in range(len(v1) + 2))
+        authorised = [['rx', (b'\x0a' + le16(h)).hex()], ['rx', (b'\x0c' + le16(h) + le16(0)).hex()],
+                      ['rx', (b'\x0c' + le16(h) + le16(1)).hex()], ['rx', (b'\x08' + le16(h) + le16(h) + t).hex()],
+                      ['rx', (b'\x0e' + le16(h) + le16(plain)).hex()], ['rx', (b'\x20' + le16(h)).hex()],
+                      ['notify', h, None, True]]
+        if len(t) == 2:
+            authorised.append(['rx', (b'\x06' + le16(h) + le16(h) + t + v1).hex()])
+        authorised += [['rx', (b'\x12' + le16(h) + new).hex()], ['rx', (b'\x0a' + le16(h)).hex()],
+                       ['rx', (b'\x52' + le16(h) + new[:-1]).hex()]]
+        for j, aop in enumerate(authorised):
+            who = 0 if (j % 3 or bearers[2]['on'] != 0) else 2     # the authorised peer also uses its EATT bearer
+            ops.append([who, aop])
+            ops += reads(1, a1, a2, True)
+            ops += reads(2, a1, a2, False)
+        # the unauthorised bearers try to write, then everybody reads again
+        for k in (1, 2):
+            ops.append([k, ['rx', (b'\x12' + le16(h) + bytes([0xE0, k])).hex()]])
+            ops.append([k, ['rx', (b'\x52' + le16(h) + bytes([0xE1, k, 1])).hex()]])
+            ops += reads(k, a1, a2, False)
+        ops.append([0, ['rx', (b'\x0a' + le16(h)).hex()]])
+    return ops
 
 
 def reading_ops(mdb1, mdb2, mtu, rng, light=False):
@@ -154,29 +238,49 @@ def attr_of(mdb, h):
     return next((a for a in mdb if a[0] == h), None)
 
 
-def oracle_pair(case, ops, r1, r2, n_read):
-    """non-interference on the reading prefix of the op list"""
-    for i in range(n_read):
+def case_bearers(case):
+    return case['bearers'] if case.get('multi') else [case['bearer']]
+
+
+def oracle_pair(case, r1, r2, n_read):
+    """non-interference: single bearer -- on the reading prefix of the op list; several bearers -- every response
+    to an observing (unauthorised) bearer, whatever the other bearers did in between"""
+    ops = r1['ops']
+    for i, o in enumerate(ops):
+        if case.get('multi'):
+            if r1['op_bearer'][i] not in case['observers']:
+                continue
+        elif i >= n_read:
+            break
         if r1['outs'][i] != r2['outs'][i]:
-            opc = bytes.fromhex(ops[i][1])[0]
-            name = OPNAME.get(opc, hex(opc))
+            opc = bytes.fromhex(o[1])[0] if o[0] == 'rx' else 0
+            name = OPNAME.get(opc, o[0])
             if case['mode'] == 'd11a':
                 yield ('D11a:read:not-READABLE',
-                       f'{name} {ops[i][1]}: responses {r1["outs"][i]} / {r2["outs"][i]} differ for two databases that '
+                       f'{name} {o[1]}: responses {r1["outs"][i]} / {r2["outs"][i]} differ for two databases that '
                        f'differ only in attributes without the READABLE permission')
             else:
-                yield (f'leak:{name}',
-                       f'{name} {ops[i][1]}: responses {r1["outs"][i]} / {r2["outs"][i]} differ although the databases '
-                       f'differ only in values the bearer may not read (bearer {case["bearer"]})')
+                b = case_bearers(case)[r1['op_bearer'][i]]
+                yield (f'leak:{name}' + (':several-bearers' if case.get('multi') else ''),
+                       f'op {i} {name} {o[1]} on bearer {r1["op_bearer"][i]} {b}: responses {r1["outs"][i]} / '
+                       f'{r2["outs"][i]} differ although the databases differ only in values this bearer may not read')
+    for r in (r1, r2):
+        if r['stray']:
+            yield ('pdu-on-another-bearer', f'PDUs {r["stray"][:3]} were sent on a bearer other than the one stimulated')
 
 
-def oracle_single(case, ops, r):
-    """refusal codes, exactly one reply, refused writes leave the value unchanged (one database)"""
-    enc, auth = case['bearer']['enc'], case['bearer']['auth']
+def oracle_single(case, r):
+    """refusal codes, exactly one reply, refused writes leave the value unchanged (one database); the
+    entitlement of each operation is that of the bearer it arrived on"""
+    bearers = case_bearers(case)
     mdb = r['db']
-    handles = [a[0] for a in mdb]
     values = {a[0]: bytes(a[3]) for a in mdb}        # tracked through the accepted writes
-    for i, (o, out) in enumerate(zip(ops, r['outs'])):
+    written = set()
+    for i, (o, out) in enumerate(zip(r['ops'], r['outs'])):
+        if o[0] != 'rx':
+            continue
+        b = bearers[r['op_bearer'][i]]
+        enc, auth = b['enc'], b['auth']
         pdu = bytes.fromhex(o[1])
         opc = pdu[0]
         name = OPNAME.get(opc, hex(opc))
@@ -197,8 +301,8 @@ def oracle_single(case, ops, r):
                 want = bytes([0x01, opc]) + ac.le16(h) + bytes([code])
                 if p != want:
                     yield (f'refusal-code:{name}', f'op {i}: {name} of handle {h} (permissions 0x{a[2]:02X}, link '
-                           f'enc={enc} auth={auth}) answered {p.hex()}, expected {want.hex()}')
-            elif not a[2] & ac.P_READABLE and a[5] == 0 and p[0] == opc + 1:
+                           f'enc={enc} auth={auth}, bearer {r["op_bearer"][i]}) answered {p.hex()}, expected {want.hex()}')
+            elif not a[2] & ac.P_READABLE and a[5] == 0 and not a[7] and p[0] == opc + 1:
                 yield ('D11a:read:not-READABLE', f'op {i}: {name} of handle {h} whose permissions 0x{a[2]:02X} lack '
                        f'READABLE returned its value')
         if opc in (0x12, 0x52):
@@ -208,34 +312,31 @@ def oracle_single(case, ops, r):
                 continue
             new = pdu[3:]
             code = ac.first_refusal(a[2], enc, auth, write=True)
-            idx = handles.index(h)
-            # the value right after this op is observed through the final values only when no later op writes
-            # it again; writing_ops writes each handle once per opcode, so track: request first, command second
             if code is not None:
                 if opc == 0x12:
                     want = bytes([0x01, opc]) + ac.le16(h) + bytes([code])
                     if pdus[0] != want:
                         yield (f'refusal-code:{name}', f'op {i}: {name} to handle {h} (permissions 0x{a[2]:02X}, link '
-                               f'enc={enc} auth={auth}) answered {pdus[0].hex()}, expected {want.hex()}')
-            elif a[6] == 0 and (opc == 0x52 or pdus[0] == b'\x13'):
-                if a[2] & ac.P_WRITEABLE:
-                    values[h] = new
-                else:
-                    values[h] = new      # what the implementation does (D11a); reported below
+                               f'enc={enc} auth={auth}, bearer {r["op_bearer"][i]}) answered {pdus[0].hex()}, '
+                               f'expected {want.hex()}')
+            elif a[6] == 0 and len(new) <= 512 and (opc == 0x52 or pdus[0] == b'\x13'):
+                values[h] = new
+                written.add(h)
+                if not a[2] & ac.P_WRITEABLE and not a[7]:
                     yield ('D11a:write:not-WRITEABLE', f'op {i}: {name} to handle {h} whose permissions 0x{a[2]:02X} '
                            f'lack WRITEABLE was accepted')
-            _ = idx
-    # final values: an attribute whose writes were all refused (by the link requirement or the callback) is unchanged
+    # final values: an attribute none of whose writes was acceptable (link requirement of the writing bearer, or
+    # refusing write function) is unchanged; otherwise it holds the last accepted value
     for a, final in zip(mdb, r['values']):
         h = a[0]
         if a[7]:
             continue          # server-made CCCD: its value is the bearer's subscription state (checked by the model)
-        code = ac.first_refusal(a[2], enc, auth, write=True)
-        if (code is not None or a[6] != 0) and bytes.fromhex(final) != bytes(a[3]):
-            yield ('refused-write-changed-value', f'handle {h} (permissions 0x{a[2]:02X}, link enc={enc} auth={auth}): '
-                   f'value changed from {bytes(a[3]).hex()} to {final} although every write was refused')
-        elif code is None and a[6] == 0 and bytes.fromhex(final) != values[h]:
-            yield ('write-lost', f'handle {h}: final value {final}, expected {values[h].hex()}')
+        if bytes.fromhex(final) != values[h]:
+            if h not in written:
+                yield ('refused-write-changed-value', f'handle {h} (permissions 0x{a[2]:02X}): value changed from '
+                       f'{bytes(a[3]).hex()} to {final} although every write to it was refused')
+            else:
+                yield ('write-lost', f'handle {h}: final value {final}, expected {values[h].hex()}')
 
 
 # ----------------------------------------------------------------------------- run
@@ -249,17 +350,31 @@ def load_corpus():
 
 def build_case(case, rng):
     """scenario pair (same ops) for a case; returns (scn1, scn2, n_read)"""
-    probe1 = ac.run_impl({'db': case['db1'], 'bearer': case['bearer'], 'ops': []})
-    probe2 = ac.run_impl({'db': case['db2'], 'bearer': case['bearer'], 'ops': []})
+    key = {'bearers': case['bearers']} if case.get('multi') else {'bearer': case['bearer']}
+    probe1 = ac.run_impl(dict(key, db=case['db1'], ops=[]))
+    probe2 = ac.run_impl(dict(key, db=case['db2'], ops=[]))
     if 'ops' in case:
         ops, n_read = case['ops'], case['n_read']
+    elif case.get('multi'):
+        ops = multi_ops(case, probe1['db'], probe2['db'], rng)
+        n_read = len(ops)
     else:
         rd = reading_ops(probe1['db'], probe2['db'], case['bearer']['mtu'], rng, case.get('light', False))
         wr = writing_ops(probe1['db'], rng)
         ops, n_read = rd + wr, len(rd)
-    s1 = {'db': case['db1'], 'bearer': case['bearer'], 'max_mtu': 517, 'ops': ops}
-    s2 = {'db': case['db2'], 'bearer': case['bearer'], 'max_mtu': 517, 'ops': ops}
+    s1 = dict(key, db=case['db1'], max_mtu=517, ops=ops)
+    s2 = dict(key, db=case['db2'], max_mtu=517, ops=ops)
     return s1, s2, n_read
+
+
+def coq_of(s, r):
+    return ac.coq_scenario_multi(r['db'], s) if 'bearers' in s else ac.coq_scenario(r['db'], s)
+
+
+def impl_digest(s, r):
+    return {'outs': [[ac.digest(bytes.fromhex(p)) for p in out] for out in r['outs']],
+            'values': [ac.digest(bytes.fromhex(v)) for v in r['values']],
+            'mtu': r['final_mtus'] if 'bearers' in s else r['mtu']}
 
 
 def check_cases(ctx, cases):
@@ -269,49 +384,53 @@ def check_cases(ctx, cases):
     impl = [(ac.run_impl(s1), ac.run_impl(s2)) for s1, s2, _ in built]
     exprs = []
     for (s1, s2, _), (r1, r2) in zip(built, impl):
-        exprs.append(ac.coq_scenario(r1['db'], s1))
-        exprs.append(ac.coq_scenario(r2['db'], s2))
+        exprs.append(coq_of(s1, r1))
+        exprs.append(coq_of(s2, r2))
     model = ctx.coq_eval(['Model.AttServer'], exprs, shard=max(2, (len(exprs) + _jobs() - 1) // _jobs()))
     for k, (case, (s1, s2, n_read), (r1, r2)) in enumerate(zip(cases, built, impl)):
         differing = sum(1 for a, b in zip(r1['db'], r2['db']) if a[3] != b[3])
-        ctx.case(('pair', case['mode'], s1, s2['db']), differing > 0,
-                 {'mode': case['mode'], 'bearer': case['bearer'], 'differing_attributes': differing,
+        kind = 'several-bearers' if case.get('multi') else case['mode']
+        ctx.case(('pair', kind, s1, s2['db']), differing > 0,
+                 {'mode': kind, 'bearers': case_bearers(case), 'differing_attributes': differing,
                   'ops': len(s1['ops'])} if k % 9 == 0 else None)
-        ctx.count('pairs.' + case['mode'])
+        ctx.count('pairs.' + kind)
         ctx.count('pairs.differing_attributes', differing)
         ctx.count('ops', 2 * len(s1['ops']))
-        ctx.count('security.%s%s' % ('enc' if case['bearer']['enc'] else 'plain', '+auth' if case['bearer']['auth'] else ''))
-        ctx.count('bearer.enhanced' if case['bearer'].get('enh') else 'bearer.fixed')
+        for b in case_bearers(case):
+            ctx.count('security.%s%s' % ('enc' if b['enc'] else 'plain', '+auth' if b['auth'] else ''))
+            ctx.count('bearer.enhanced' if b.get('enh') else 'bearer.fixed')
         for a in r1['db']:
             ctx.extra.setdefault('perms_seen', set()).add(a[2])
-        for o, out in zip(s1['ops'], r1['outs']):
+        for o, out in zip(r1['ops'], r1['outs']):
+            if o[0] != 'rx':
+                ctx.count('op.' + o[0])
+                continue
             opc = bytes.fromhex(o[1])[0]
-            kind = 'error' if out and out[0][:2] == '01' else ('none' if not out else 'ok')
-            ctx.count(f'{OPNAME.get(opc, hex(opc))}.{kind}')
+            res = 'error' if out and out[0][:2] == '01' else ('none' if not out else 'ok')
+            ctx.count(f'{OPNAME.get(opc, hex(opc))}.{res}')
+        rep = {'kind': 'pair', 'case': _case_replay(case, s1, n_read)}
         # correspondence, both databases
         for s, r, mv, which in ((s1, r1, model[2 * k], 1), (s2, r2, model[2 * k + 1], 2)):
             m = ac.model_result(mv)
-            i = {'outs': [[ac.digest(bytes.fromhex(p)) for p in out] for out in r['outs']],
-                 'values': [ac.digest(bytes.fromhex(v)) for v in r['values']], 'mtu': r['mtu']}
+            i = impl_digest(s, r)
             if m != i:
                 bad = None if m is None else next((j for j, (a, b) in enumerate(zip(m['outs'], i['outs'])) if a != b), None)
                 ctx.disagree(f'model and implementation differ (database {which})'
-                             + (f' at op {bad} {s["ops"][bad]}' if bad is not None else ''),
-                             {'kind': 'pair', 'case': _case_replay(case, s1, n_read)},
+                             + (f' at op {bad} {s["ops"][bad]}' if bad is not None else ''), rep,
                              None if m is None else (m['outs'][bad] if bad is not None else [m['values'], m['mtu']]),
                              i['outs'][bad] if bad is not None else [i['values'], i['mtu']])
         # oracle
-        rep = {'kind': 'pair', 'case': _case_replay(case, s1, n_read)}
-        for sig, what in oracle_pair(case, s1['ops'], r1, r2, n_read):
+        for sig, what in oracle_pair(case, r1, r2, n_read):
             ctx.violation(sig, what, rep)
         for r in (r1, r2):
-            for sig, what in oracle_single(case, s1['ops'], r):
+            for sig, what in oracle_single(case, r):
                 ctx.violation(sig, what, rep)
 
 
 def _case_replay(case, s1, n_read):
-    return {'mode': case['mode'], 'bearer': case['bearer'], 'db1': case['db1'], 'db2': case['db2'],
-            'ops': s1['ops'], 'n_read': n_read, 'light': case.get('light', False)}
+    out = {k: case[k] for k in ('mode', 'db1', 'db2', 'bearer', 'bearers', 'observers', 'multi', 'light') if k in case}
+    out.update(ops=s1['ops'], n_read=n_read)
+    return out
 
 
 def run(ctx):
@@ -341,6 +460,9 @@ def run(ctx):
     for rep in range(ctx.n(1, 3)):
         for j in range(8):
             cases.append(gen_pair(rng, base + j + rep, 'strict', perms=[(j * 32 + i) for i in range(32)]))
+    # several bearers on one server: authorised and unauthorised peers interleaved on the same attributes
+    for k in range(ctx.n(4, 48)):
+        cases.append(gen_multi(rng, base + k))
     for i in range(0, len(cases), 60):
         check_cases(ctx, cases[i:i + 60])
     seen = ctx.extra.pop('perms_seen', set())
@@ -350,11 +472,11 @@ def run(ctx):
 def search(ctx):
     rng = ctx.rng.fork('search')
     for k in range(96):
-        case = gen_pair(rng, k, 'strict')
+        case = gen_pair(rng, k, 'strict') if k % 3 else gen_multi(rng, k)
         s1, s2, n_read = build_case(case, rng)
         r1, r2 = ac.run_impl(s1), ac.run_impl(s2)
         rep = {'kind': 'pair', 'case': _case_replay(case, s1, n_read)}
-        for sig, what in list(oracle_pair(case, s1['ops'], r1, r2, n_read)) + list(oracle_single(case, s1['ops'], r1)):
+        for sig, what in list(oracle_pair(case, r1, r2, n_read)) + list(oracle_single(case, r1)):
             if not sig.startswith('D11a:'):
                 ctx.violation(sig, what, rep)
         if ctx.violations:
@@ -365,10 +487,9 @@ def replay(ctx, obj):
     case = obj['replay']['case']
     s1, s2, n_read = build_case(case, ctx.rng)
     r1, r2 = ac.run_impl(s1), ac.run_impl(s2)
-    bad = list(oracle_pair(case, s1['ops'], r1, r2, n_read)) + list(oracle_single(case, s1['ops'], r1)) \
-        + list(oracle_single(case, s1['ops'], r2))
-    for o, a, b in zip(s1['ops'], r1['outs'], r2['outs']):
-        print(f'  {o[1]} -> {a}' + ('' if a == b else f'   |   second database: {b}'))
+    bad = list(oracle_pair(case, r1, r2, n_read)) + list(oracle_single(case, r1)) + list(oracle_single(case, r2))
+    for k, o, a, b in zip(r1['op_bearer'], r1['ops'], r1['outs'], r2['outs']):
+        print(f'  bearer {k}: {o[1:]} -> {a}' + ('' if a == b else f'   |   second database: {b}'))
     seen = set()
     for sig, what in bad:
         if sig not in seen:
